@@ -19,7 +19,9 @@ from collections import Counter
 
 VERIF = os.path.dirname(os.path.dirname(os.path.abspath(__file__)))
 REPLAY_DIR = os.path.join(VERIF, "replay")
-EVID_DIR = os.path.join(VERIF, "evidence")
+# seed/mutation experiments redirect what a run writes, so that committed evidence and replays stay those of /repo itself
+EVID_DIR = os.environ.get("VERIF_EVID_DIR") or os.path.join(VERIF, "evidence")
+NEW_REPLAY_DIR = os.environ.get("VERIF_NEW_REPLAY_DIR") or REPLAY_DIR
 KNOWN_FILE = os.path.join(VERIF, "known_findings.jsonl")
 
 
@@ -193,9 +195,9 @@ def _worker(modname, tier, seed, widx, examples, seconds, outpath):
 # ----------------------------------------------------------------- driver
 
 def write_replay(pid, v, tag=None):
-    os.makedirs(REPLAY_DIR, exist_ok=True)
+    os.makedirs(NEW_REPLAY_DIR, exist_ok=True)
     h = case_hash(v["case"])
-    p = os.path.join(REPLAY_DIR, "%s-%s%s.json" % (pid, tag + "-" if tag else "", h))
+    p = os.path.join(NEW_REPLAY_DIR, "%s-%s%s.json" % (pid, tag + "-" if tag else "", h))
     with open(p, "w") as fh:
         json.dump({"property": pid, "case": v["case"], "detail": v["detail"], "kind": v.get("kind")}, fh, indent=1,
                   default=str)
@@ -365,6 +367,6 @@ def run_check(mod, tier, seed, only_replay=None):
                 continue
             seen.add(p)
             print("detail: %s" % json.dumps(r.get("detail"), default=str)[:800])
-            print("VIOLATION property=%s replay=%s" % (pid, os.path.relpath(p, VERIF)))
+            print("VIOLATION property=%s replay=%s" % (pid, os.path.relpath(p, VERIF) if p.startswith(VERIF) else p))
         return 1
     return 0
